@@ -323,7 +323,13 @@ func (f *Family) Assign(body []Stmt, prefix string) Slots {
 // ForEachGotoAssignment calls f for every assignment of the gotos to the
 // defined labels plus one external name.
 func ForEachGotoAssignment(sl Slots, ext string, f func(variant int)) {
-	targets := append(append([]string{}, sl.Labels...), ext)
+	ForEachGotoAssignmentTo(sl, []string{ext}, f)
+}
+
+// ForEachGotoAssignmentTo is ForEachGotoAssignment with several extra targets
+// (labels of other scripts, external names).
+func ForEachGotoAssignmentTo(sl Slots, extra []string, f func(variant int)) {
+	targets := append(append([]string{}, sl.Labels...), extra...)
 	g := len(sl.Gotos)
 	if g == 0 {
 		f(0)
